@@ -99,6 +99,7 @@ _ALL["C20"]["level"] += "; default-target parents of a quarter of the pairs are 
 _ALL["C04"]["level"] += "; one cell in eight is also measured through an accepted non-canonical spelling of its id"
 _ALL["C11"]["level"] += "; the option-less ring of an accepted non-canonical spelling must equal the cell's, bit for bit"
 _ALL["C09"]["level"] += "; long lists get coarser cells mixed in; a list that cell_to_children accepts element-wise may not be rejected"
+_ALL["C10"]["level"] += "; a third of the sets is compacted again with half of the cells in accepted non-canonical spellings and one cell repeated in another spelling: same list required"
 _ALL["C14"]["level"] += "; an Ok answer of a single-cell call for a word whose face / quintant field denotes no cell is a violation"
 _ALL["C15"]["level"] += "; points of every face (half of them on a triangle seam) are also presented with theta wound by 1e2..9e8 whole turns and judged against the direction of the wound coordinates"
 _ALL["C16"]["level"] += "; a cell_reach stage measures the Jacobian on the planar outlines of real edge- and vertex-straddling cells (library's get_pentagon) and counts outline points outside the assumed margin (none observed)"
